@@ -507,3 +507,37 @@ impl WriterRig {
 
 #[allow(dead_code)]
 fn _unused(_: EntityId, _: EntityKind, _: GuidPrefix, _: GUID) {}
+
+// ---- additions of the link check (C02 / C05, round 4): key-only samples -----------------------
+impl WriterRig {
+  /// DataWriter::dispose -> Writer: `WriterCommand::DDSData` carrying `DDSData::DisposeByKey` through
+  /// the real channel, then `process_writer_command`.  `key` = serialized key without encapsulation
+  /// header (CDR_LE).  A key longer than the fragment size goes out as DATAFRAGs.
+  pub fn write_dispose(
+    &mut self,
+    key: Vec<u8>,
+    src_ts_secs: Option<u32>,
+  ) -> (i64, Vec<net::Sent>) {
+    self.begin();
+    let sn = self.next_sn;
+    self.next_sn += 1;
+    let mut wo = WriteOptionsBuilder::new();
+    if let Some(s) = src_ts_secs {
+      wo = wo.source_timestamp(Timestamp::from_ticks((s as u64) << 32));
+    }
+    let ddsdata = DDSData::new_disposed_by_key(
+      crate::structure::cache_change::ChangeKind::NotAliveDisposed,
+      SerializedPayload::new_from_bytes(RepresentationIdentifier::CDR_LE, bytes::Bytes::from(key)),
+    );
+    self
+      .cmd_sender
+      .try_send(WriterCommand::DDSData {
+        ddsdata,
+        write_options: wo.build(),
+        sequence_number: SequenceNumber::new(sn),
+      })
+      .unwrap_or_else(|_| panic!("verif: command channel"));
+    self.writer.process_writer_command();
+    (sn, net::capture_take())
+  }
+}
